@@ -185,6 +185,25 @@ def real_pool_selection_case(seed):
     return out
 
 
+def huge_offset_case(_):
+    """a binary file above 2 GiB (sparse): the on-demand iterator yields the box stored behind 2**31 bytes"""
+    import numpy as np
+    from amr_kitchen import PlotfileCooker
+    out = dict(evals=1, keys=[core.khash('huge-offset')], dist={'case=binary file above 2 GiB': 1}, samples=[], violations=[], disagreements=[])
+    path = os.path.join(core.scratch_dir('c15_huge'), 'plt_big')
+    os.makedirs(os.path.dirname(path))
+    pf, off1, small = gen.write_huge_offset_plotfile(path)
+    desc = dict(case='binary file of 2 GiB + (sparse), second box at offset %d' % off1, case_fn='huge_offset_case', seed=0)
+    want = np.asarray(small[..., 0], dtype='<f8').tobytes(order='F')
+    for sel in ([1], slice(1, 2)):
+        res = core.outcome(lambda: [np.asarray(a).tobytes(order='F') for a in PlotfileCooker(path)['temp'][0].iter(sel)])
+        if res != ('ok', [want]):
+            out['violations'].append(dict(desc, kind='iter-selection',
+                                          what=f"iter({sel!r}) did not yield the box stored behind 2 GiB: " + (res[1] if res[0] != 'ok' else 'other data')))
+            break
+    return out
+
+
 def two_dirs_reader(seed):
     return core.two_dirs_case(PID, 'reader', seed)
 
@@ -202,6 +221,8 @@ def run(tier, seed):
     for r in core.run_cases(run_case, core.with_corpus(PID, cases)):
         rep.merge(r)
     for r in core.run_cases(real_pool_selection_case, [seed * 100000 + 15900 + i for i in range(1 if tier == 'quick' else 4)]):
+        rep.merge(r)
+    for r in core.run_cases(huge_offset_case, [0]):
         rep.merge(r)
     for r in core.run_cases(two_dirs_reader, [seed * 100000 + 99000 + i for i in range(1 if tier == 'quick' else 5)]):
         rep.merge(r)
